@@ -558,6 +558,7 @@ func c18Run(w *lib.Worker, c c18case) {
 				sw.http.ServeHTTP(rec, req)
 			}()
 			w.Eval(1)
+			w.AddTrans(1)
 			if panicked != "" {
 				report("handler-panicked", enc.Name, uri, "the handler panicked: "+panicked, "a response", panicked)
 				continue
@@ -622,6 +623,7 @@ func c18Run(w *lib.Worker, c c18case) {
 		}
 	}
 	w.AddTraces(1)
+	w.AddStates(1)
 }
 
 func c18Cases(tier string) []c18case {
@@ -644,7 +646,7 @@ func init() {
 		ID:    "C18",
 		Level: "model_checking",
 		Rule: "bounded-exhaustive differential enumeration: every logical request (17 /api/loc operations x ids / locations / facts / patterns / rules / events / queries that need URL, JSON and YAML escaping, on a populated and an empty system) x every encoding that can express it (JSON body, /api/json envelope, query string, form body, YAML body, /api/yaml envelope, batch element, location in the query + JSON body) x 4 URI spellings, each on a fresh service world through HTTPService.ServeHTTP, against the direct call on a twin sys.System; plus ill-formed variants (each required parameter dropped, each parameter with 2-4 wrong types, unknown URIs); both states; " +
-			"evaluations = HTTP requests compared, traces = logical requests, non-trivial = (request, encoding) pairs whose successful result equalled the direct call's",
+			"states = traces = logical requests (x history x state), transitions = evaluations = HTTP requests executed and compared, non-trivial = (request, encoding) pairs whose successful result equalled the direct call's",
 		Assumptions: []string{
 			"ids are always given (generated ids differ between worlds)",
 			"a batch element counts as refused when it is an object holding only an error",
@@ -670,6 +672,9 @@ func init() {
 				}
 				w.Journal(lib.Canon(map[string]interface{}{"kind": c.Kind, "history": c.History, "req": c.Req.String()}))
 				c18Run(w, c)
+				if i%211 == 0 {
+					w.Sample(map[string]interface{}{"kind": c.Kind, "history": c.History, "request": c.Req.String()})
+				}
 			}
 		},
 		CrashIsViolation: true,
